@@ -51,7 +51,7 @@ SCOPES = {
         mc=[(dict(MaxRows=3, MaxLen=3, Bound=4, MaxList=2, MaskMax=4, Pairwise="TRUE", SampleN=1, SampleK=0), 9, 1)],
         selftest=dict(MaxN=5, B=7)),
     "thorough": dict(
-        emit=[(dict(MaxRows=3, MaxLen=3, Bound=4, MaxList=2, MaskMax=6, Pairwise="FALSE", SampleN=4, SampleK=None), 13),
+        emit=[(dict(MaxRows=3, MaxLen=3, Bound=4, MaxList=2, MaskMax=6, Pairwise="FALSE", SampleN=8, SampleK=None), 39),
               (dict(MaxRows=4, MaxLen=4, Bound=5, MaxList=2, MaskMax=4, Pairwise="TRUE", SampleN=1, SampleK=0), None)],
         mc=[(dict(MaxRows=3, MaxLen=3, Bound=4, MaxList=2, MaskMax=4, Pairwise="TRUE", SampleN=1, SampleK=0), 4, 4)],
         selftest=dict(MaxN=7, B=9)),
@@ -408,29 +408,30 @@ def _consts(sc, shard_n, shard_k, emit, seed):
 
 
 def run(ctx):
+    import time
     tier = SCOPES[ctx.tier]
     ctx.rule = ("TLC enumerates every shape (<=MaxRows rows of length 1..MaxLen) x index expression of the grammar "
                 "(int, slice with bounds in -Bound..Bound or None and steps None/1/2/-1, list of length <=MaxList, "
-                "the 8 pairs, ragged boolean masks); each case is replayed on 6 constructed arrays (3 construction forms x scalar/2-vector elements); a case is "
-                "non-trivial when the definition yields at least one element; distinct by (shape, index)")
+                "the 8 pairs, ragged boolean masks); each case is replayed on 6 constructed arrays (3 construction "
+                "forms x scalar/2-vector elements); a case is non-trivial when the definition yields at least one "
+                "element; distinct by (shape, index)")
     ctx.assumptions += ["stored rows are non-empty (the library's input domain); results may have empty rows",
                         "int64 element data (float64 for the dtype attribute); list indices given as Python lists",
-                        "pair (int, list) is outside the claimed grammar and not exercised"]
+                        "pair (int, list) is outside the claimed grammar and not exercised",
+                        "a column read ra[a:b, j] may come back as a 1-d array or as rows of length one"]
     b = core.build_repo()
     core.activate(b)
     d = core.spec_tmp(SPEC_DIR)
     gc = ("-XX:ParallelGCThreads=2",)
 
-    jobs, kinds = [], []
-    jobs.append(selftest(ctx, d, run=False))
-    kinds.append(("selftest", None))
+    other, emit = [], []
+    other.append(("selftest", selftest(ctx, d, run=False)))
     # attributes (all shapes of the largest emission scope)
     big = max((sc for sc, _ in tier["emit"]), key=lambda s: (s["MaxRows"], s["MaxLen"]))
-    cfg = core.write_cfg(os.path.join(d, "attr.cfg"), init="InitAttr", constants=_consts(big, 1, 0, True, ctx.seed),
-                         invariants=["AttrInv"])
-    jobs.append(dict(module="RaggedRead", cfg="attr.cfg", cwd=d, label="attributes %s" % big, workers=1,
-                     timeout=600, java_opts=gc))
-    kinds.append(("attr", None))
+    core.write_cfg(os.path.join(d, "attr.cfg"), init="InitAttr", constants=_consts(big, 1, 0, True, ctx.seed),
+                   invariants=["AttrInv"])
+    other.append(("attr", dict(module="RaggedRead", cfg="attr.cfg", cwd=d, label="attributes %s" % big, workers=1,
+                               timeout=900, java_opts=gc)))
     sampled = []
     for si, (sc, nshard) in enumerate(tier["emit"]):
         if nshard is None:
@@ -448,9 +449,8 @@ def run(ctx):
             name = "emit%d_%d.cfg" % (si, k)
             core.write_cfg(os.path.join(d, name), constants=_consts(sc, total, k, True, ctx.seed),
                            invariants=["EmitInv"])
-            jobs.append(dict(module="RaggedRead", cfg=name, cwd=d, label="emit %s shard %d/%d" % (sc, k, total),
-                             workers=1, timeout=1500, java_opts=gc))
-            kinds.append(("emit", (si, k)))
+            emit.append(dict(module="RaggedRead", cfg=name, cwd=d, label="emit %s shard %d/%d" % (sc, k, total),
+                             workers=1, timeout=2400, java_opts=gc))
     for mi, (sc, total, npick) in enumerate(tier["mc"]):
         picks = [(ctx.seed + j) % total for j in range(npick)]
         if npick < total:
@@ -460,36 +460,13 @@ def run(ctx):
             name = "mc%d_%d.cfg" % (mi, k)
             core.write_cfg(os.path.join(d, name), constants=_consts(sc, total, k, False, ctx.seed),
                            invariants=MC_INVS)
-            jobs.append(dict(module="RaggedRead", cfg=name, cwd=d, label="step machine %s shard %d/%d" % (sc, k, total),
-                             workers=3, coverage=True, timeout=1500, java_opts=gc))
-            kinds.append(("mc", (mi, k)))
-    ctx.exhaustive = not [s for s in sampled if "thinned" in s or "shard" in s]
+            other.append(("mc", dict(module="RaggedRead", cfg=name, cwd=d,
+                                     label="step machine %s shard %d/%d" % (sc, k, total),
+                                     workers=3, coverage=True, timeout=2400, java_opts=gc)))
+    ctx.exhaustive = not [s_ for s_ in sampled if "thinned" in s_ or "shard" in s_]
     ctx.notes["scope_reductions"] = sorted(set(sampled))
     ctx.notes["transcription"] = "ra.py with the proposed repairs" if PATCHED == "TRUE" else "pinned ra.py"
 
-    import time
-    t0 = time.time()
-    results = ctx.tlc_parallel(jobs, max_par=14)
-    ctx.notes["wall_tlc_phase_s"] = round(time.time() - t0, 1)
-    t0 = time.time()
-
-    # --- self-test
-    selftest_check(ctx, results[0])
-
-    # --- vacuity of the step machine
-    cov = collections.Counter()
-    for (kd, _), r in zip(kinds, results):
-        if kd == "mc":
-            cov.update(r.coverage)
-    for act in ("Choose", "Dispatch", "SliceToList", "Iis", "Convert", "GatherStep", "WrapStep"):
-        if cov.get(act, 0) == 0:
-            raise core.MachineryError("step machine: action %s never fired (coverage %s)" % (act, dict(cov)))
-    ctx.notes["action_counts"] = dict(cov)
-
-    # --- attributes
-    attrs = [p for t, p in results[1].prints if t == "ATTR"]
-    if not attrs:
-        raise core.MachineryError("no ATTR lines emitted")
     found = collections.OrderedDict()     # key -> [count, examples]
 
     def report(key, example):
@@ -498,23 +475,9 @@ def run(ctx):
         if len(e[1]) < 3:
             e[1].append(example)
 
-    for res in core.pmap(check_attrs, attrs, chunk=8):
-        ctx.case(("attr", tuple(res["lens"]), res["edim"]))
-        ctx.traces += 1
-        for form, elem, name, got, want in res["bad"]:
-            key = "attr/%s/%s/%s%s" % (name, form, "vector-elements" if elem == "vec2" else "scalar-elements",
-                                       "/equal-row-lengths" if res["equal"] else "")
-            report(key, dict(kind="attribute", lens=res["lens"], form=form, elem=elem, attribute=name,
-                             observed=got, expected=want))
+    st = dict(ncase=0, nev=0, nfid=0, nskip=0, fid_ex=[], percls=collections.Counter(), badcls=collections.Counter())
 
-    # --- index expressions
-    ncase = nev = nfid = nskip = 0
-    fid_ex = []
-    percls = collections.Counter()
-    badcls = collections.Counter()
-    for (kd, _), r in zip(kinds, results):
-        if kd != "emit":
-            continue
+    def process_emit(r):
         lines = [p for t, p in r.prints if t == "CASE"]
         r.prints = None
         r.stdout = None
@@ -522,16 +485,16 @@ def run(ctx):
             raise core.MachineryError("an emitting run printed no CASE line")
         lines.sort(key=lambda rec: rec["lens"])
         for rec, res in zip(lines, core.pmap(replay_batch, lines, chunk=40)):
-            ncase += res["n"]
-            nev += res["evals"]
-            nfid += res["fid"]
-            nskip += res["skipped"]
-            if len(fid_ex) < 5:
-                fid_ex += res["fid_ex"]
+            st["ncase"] += res["n"]
+            st["nev"] += res["evals"]
+            st["nfid"] += res["fid"]
+            st["nskip"] += res["skipped"]
+            if len(st["fid_ex"]) < 5:
+                st["fid_ex"] += res["fid_ex"]
             ctx.nontrivial.update(res["nontriv"])
             ctx.traces += res["n"]
             for c in rec["res"]:
-                percls[c[2]] += 1
+                st["percls"][c[2]] += 1
             if len(ctx.samples) < 5 and rec["kind"] == "SS" and len(rec["lens"]) == 3 and len(set(rec["lens"])) == 3:
                 c = next((c for c in rec["res"] if c[2] == "(*,S)/plain"), None)
                 if c:
@@ -541,28 +504,152 @@ def run(ctx):
                                    "transcribed arithmetic and the definition (dis)agree outside the stated classes",
                                    case=df), key="model/RaggedRead/DesignReadEq/%s" % df["cls"])
             for b_enc, exp, cls, mis, bad in res["bad"]:
-                badcls[cls] += 1
+                st["badcls"][cls] += 1
                 for key, (vs, got) in keys_for(cls, mis, bad, res["ran"]).items():
-                    report(key, dict(kind="replay", lens=rec["lens"], rows=[r_.tolist() for r_ in _rows(rec["lens"], "scalar")],
+                    report(key, dict(kind="replay", lens=rec["lens"],
+                                     rows=[r_.tolist() for r_ in _rows(rec["lens"], "scalar")],
                                      index_kind=rec["kind"], a=rec["a"], b=b_enc, index_class=cls, mis=mis,
                                      expected=exp, observed=got, variants=vs,
                                      how="RaggedArray(...)[ix] vs RaggedRead!Get; a={i:int}|{s:[start,stop,step]}|"
                                          "{l:list}|{m:mask}, 1000000 = None; elements are cell ids 10*row+col"))
-        del lines
-    ctx.evaluations += ncase
-    ctx.notes["wall_replay_phase_s"] = round(time.time() - t0, 1)
-    ctx.notes["cases"] = ncase
-    ctx.notes["reads_evaluated"] = nev
-    ctx.notes["reads_skipped_source_array_misconstructed"] = nskip
-    ctx.notes["cases_per_class"] = dict(percls)
-    ctx.notes["mismatching_cases_per_class"] = dict(badcls)
-    ctx.notes["transcription_vs_real_disagreements"] = {"n": nfid, "examples": fid_ex}
-    for key, (n, exs) in found.items():
+
+    # TLC in waves (memory: an emitting run's output is parsed, replayed and dropped before the next wave)
+    t_tlc = t_rep = 0.0
+    wave_size = 12
+    first = True
+    other_res = []
+    while emit or first:
+        n_emit = max(0, wave_size - (len(other) if first else 0))
+        wave = ([j for _, j in other] if first else []) + emit[:n_emit]
+        emit = emit[n_emit:]
+        t0 = time.time()
+        results = ctx.tlc_parallel(wave, max_par=14)
+        t_tlc += time.time() - t0
+        t0 = time.time()
+        if first:
+            other_res = list(zip([k for k, _ in other], results[:len(other)]))
+            results = results[len(other):]
+            for r in other_res:
+                if r[0] != "attr":
+                    r[1].stdout = None
+            first = False
+        for r in results:
+            process_emit(r)
+        del results
+        t_rep += time.time() - t0
+    ctx.notes["wall_tlc_phases_s"] = round(t_tlc, 1)
+    ctx.notes["wall_replay_phases_s"] = round(t_rep, 1)
+
+    # --- self-test
+    selftest_check(ctx, next(r for k, r in other_res if k == "selftest"))
+
+    # --- vacuity of the step machine
+    cov = collections.Counter()
+    for k, r in other_res:
+        if k == "mc":
+            cov.update(r.coverage)
+    for act in ("Choose", "Dispatch", "SliceToList", "Iis", "Convert", "GatherStep", "WrapStep"):
+        if cov.get(act, 0) == 0:
+            raise core.MachineryError("step machine: action %s never fired (coverage %s)" % (act, dict(cov)))
+    ctx.notes["action_counts"] = dict(cov)
+
+    # --- attributes
+    attrs = [p for t, p in next(r for k, r in other_res if k == "attr").prints if t == "ATTR"]
+    if not attrs:
+        raise core.MachineryError("no ATTR lines emitted")
+    attr_bad = collections.defaultdict(list)      # (attribute, shape) -> failing (form, elem, got, want, equal)
+    for res in core.pmap(check_attrs, attrs, chunk=8):
+        ctx.case(("attr", tuple(res["lens"]), res["edim"]))
+        ctx.traces += 1
+        for form, elem, name, got, want in res["bad"]:
+            attr_bad[(name, tuple(res["lens"]))].append((form, elem, got, want, res["equal"]))
+    for (name, lens), fails in sorted(attr_bad.items()):
+        everywhere = len({(f, e) for f, e, _, _, _ in fails}) == len(FORMS) * len(ELEMS)
+        for form, elem, got, want, equal in (fails[:1] if everywhere else fails):
+            key = "attr/%s" % name if everywhere else \
+                "attr/%s/%s/%s%s" % (name, form, "vector-elements" if elem == "vec2" else "scalar-elements",
+                                     "/equal-row-lengths" if equal else "")
+            report(key, dict(kind="attribute", lens=list(lens), form=form, elem=elem, attribute=name,
+                             observed=got, expected=want))
+
+    ctx.evaluations += st["ncase"]
+    ctx.notes["cases"] = st["ncase"]
+    ctx.notes["reads_evaluated"] = st["nev"]
+    ctx.notes["reads_skipped_source_array_misconstructed"] = st["nskip"]
+    ctx.notes["cases_per_class"] = dict(st["percls"])
+    ctx.notes["mismatching_cases_per_class"] = dict(st["badcls"])
+    ctx.notes["transcription_vs_real_disagreements"] = {"n": st["nfid"], "examples": st["fid_ex"]}
+    if ctx.tier == "thorough":
+        trace_validate(ctx, b, d, report)
+    for key, (n, exs) in sorted(found.items()):
         rec = dict(exs[0])
         rec["n_cases"] = n
         rec["more_examples"] = exs[1:]
         ctx.violation(rec, key=key)
     ctx.notes["finding_keys"] = {k: v[0] for k, v in found.items()}
+    import resource
+    ctx.notes["cpu_s"] = {"driver_process": round(sum(resource.getrusage(resource.RUSAGE_SELF)[:2]), 1),
+                          "tlc_and_replay_children": round(sum(resource.getrusage(resource.RUSAGE_CHILDREN)[:2]), 1)}
+
+
+def trace_validate(ctx, build_dir, d, report):
+    """Binding B (thorough): the reads performed by enspara/test/test_ra.py,
+    recorded through harness/c05_trace_plugin.py, are judged by TLC
+    (specs/ragged/Trace_RaggedRead.tla: observed = Get(rows, ix))."""
+    import subprocess
+    tmp = core.scratch("ev_c05tr_")
+    raw = os.path.join(tmp, "reads.ndjson")
+    env = dict(os.environ)
+    env["C05_TRACE_OUT"] = raw
+    env["PYTHONPATH"] = os.pathsep.join([os.path.join(core.VERIF, "harness", "fakempi"), build_dir, core.VERIF])
+    env["OMP_NUM_THREADS"] = "1"
+    p = subprocess.run([core.PY, "-m", "pytest", "-q", "-x", "-p", "no:cacheprovider", "-p", "harness.c05_trace_plugin",
+                        os.path.join(build_dir, "enspara", "test", "test_ra.py")],
+                       cwd=build_dir, env=env, stdout=subprocess.PIPE, stderr=subprocess.STDOUT, text=True, timeout=1200)
+    if not os.path.exists(raw):
+        raise core.MachineryError("test_ra.py under the trace plugin produced no trace:\n" + p.stdout[-2000:])
+    recs = [json.loads(l) for l in open(raw)]
+    summary = recs.pop() if recs and "summary" in recs[-1] else {}
+    if not recs:
+        raise core.MachineryError("no read recorded from test_ra.py:\n" + p.stdout[-2000:])
+    # identical reads are judged once
+    uniq, order = {}, []
+    for r in recs:
+        k = json.dumps([r["rows"], r["ix"], r["res"]])
+        if k not in uniq:
+            uniq[k] = r
+            order.append(r)
+    tf = os.path.join(tmp, "traces.ndjson")
+    with open(tf, "w") as fh:
+        for r in order:
+            fh.write(json.dumps({"rows": r["rows"], "ix": r["ix"], "res": r["res"]}) + "\n")
+    sc = dict(MaxRows=1, MaxLen=1, Bound=1, MaxList=0, MaskMax=0, Pairwise="TRUE", SampleN=1, SampleK=0)
+    core.write_cfg(os.path.join(d, "trace.cfg"), init="TraceInit", next_="TraceNext",
+                   constants=_consts(sc, 1, 0, False, 0), invariants=["Verdict"])
+    r = ctx.tlc("Trace_RaggedRead", "trace.cfg", d, label="trace validation of %d distinct reads of test_ra.py" % len(order),
+                workers=1, timeout=900, env={"TRACE_FILE": tf}, java_opts=("-XX:ParallelGCThreads=2",))
+    verdicts = {v[0]: v[1:] for t, v in r.prints if t == "TV"}
+    acc = rej = 0
+    for tid, rec in enumerate(order, 1):
+        if tid not in verdicts:
+            raise core.MachineryError("no verdict for recorded read %d: %r" % (tid, rec))
+        verdict, cls, exp = verdicts[tid][0], verdicts[tid][1], verdicts[tid][2]
+        ctx.traces += 1
+        ctx.case(("trace", tid))
+        if verdict == "ACCEPT":
+            acc += 1
+            continue
+        if verdict == "MALFORMED":
+            continue
+        rej += 1
+        exp = json.loads(exp)
+        report("getitem/%s/%s" % (cls, outcome(exp, rec["res"])),
+               dict(kind="trace", source="enspara/test/test_ra.py::%s" % rec["test"], rows=rec["rows"], ix=rec["ix"],
+                    index_class=cls, expected=exp, observed=rec["res"],
+                    how="read recorded from the test run, judged by Trace_RaggedRead!Verdict"))
+    ctx.notes["trace_validation_test_ra"] = dict(reads_recorded=len(recs), distinct=len(order), accepted=acc, rejected=rej,
+                                                 not_encodable=summary.get("skipped"),
+                                                 pytest_tail=p.stdout.strip().splitlines()[-1:] )
 
 
 def replay(ctx, path):
@@ -588,6 +675,33 @@ def replay(ctx, path):
             got = "raised %s: %s" % (type(ex).__name__, ex)
         if got != rec["expected"]:
             ctx.violation(dict(rec, observed=got), key=rec["key"])
+        return
+    if rec.get("kind") == "trace":
+        # a read recorded from test_ra.py; the expected value was computed by TLC and is stored in the record
+        from enspara import ra
+        arr = ra.RaggedArray([np.array(r) for r in rec["rows"]])
+        enc = rec["ix"]
+        if "m" in enc:
+            ix = ra.RaggedArray([list(r) for r in enc["m"]])
+        elif "r" in enc:
+            ix = (py_index(enc["r"]), py_index(enc["c"]))
+        else:
+            ix = py_index(enc)
+        try:
+            res = arr[ix]
+            if isinstance(res, ra.RaggedArray):
+                got = {"r": [np.asarray(r).tolist() for r in res]}
+            elif isinstance(res, np.ndarray) and res.ndim > 0:
+                got = {"f": res.tolist()}
+            else:
+                got = {"v": np.asarray(res).item()}
+        except Exception as ex:
+            got = {"e": type(ex).__name__}
+        if not same(rec["expected"], got):
+            ctx.violation(dict(rec, observed=got), key=rec["key"])
+        return
+    if rec.get("kind") != "replay":
+        print("record of kind %r: re-run ./check C05 instead" % rec.get("kind"))
         return
     line = dict(lens=rec["lens"], kind=rec["index_kind"], a=rec["a"],
                 res=[[rec["b"], rec["expected"], rec["index_class"], 0, rec.get("mis", 0), True]])
